@@ -131,10 +131,55 @@ FIRST_WAVE_MISSED.update({
     "C18_l": "process ids never changed: a connected module announces another process id",
     "C19_k": "every request came after a handshake: requests before the handshake, and the handshake later on the same connection",
 })
-NEUTRALIZED = {"C17_b": "the change re-ordered the two Event operations of the hand-off; the second data-logger repair made the pair atomic under a lock, so the re-ordering no longer breaks the property (the demonstration passes on the repaired tree)"}
+FIRST_WAVE_MISSED.update({
+    "C08_k": "first run: harness error - the change reads with select.poll, which the virtual network did not model (an unmodelled socket / select API is a harness error, never a verdict): poll objects (POLLIN / POLLOUT / POLLERR / POLLHUP / POLLRDHUP) are now modelled and checked against the kernel in the conformance pass",
+    "C01_n": "every module in the routing population had a static id: two dynamically numbered modules (CONNECT_V2 followed by the legacy CONNECT that still carries source id 0) are now addressed by the id they were told",
+    "C03_n": "every by-stander was writable in every round: clients that are momentarily slow (not writable in one round) while a message, a report or a notice is due to them - including the notice about the message they could not take",
+    "C04_n": "no project file listed the core definition files itself: every second single-file program now imports core_defs.yaml and data_logger.yaml explicitly before its own definitions",
+    "C06_m": "long-lived dynamic modules always sat in the manager's table in the order of their ids: every permutation of 2-3 (thorough: 4) holders that left and came back to their old id after a full turn of the cursor, then another full turn",
+    "C06_n": "connect() was only called on unconnected Client objects: a second connect() with other options on a Client that is already connected to the same manager (judged at the manager's table)",
+    "C07_m": "no report subscriber was found dead while a multi-part report went out in the C07 families (C03 had it): added, with a second subscriber of the same report that must still receive all parts",
+    "C09_n": "array-to-array copies were only made between fields of the same name: every array kind now has a second field of the same type under another name; copies from another message and within one message",
+    "C10_m": "every decode was of a fresh text: the decoded object is now overwritten by its owner and the same representation decoded again (all codecs; header and data for Message.from_json)",
+    "C12_n": "import chains had at most four files: a sixteen-file chain (alternating directories) with conflicts and conflict-free placements at depths 9-15",
+    "C13_m": "the retype alphabet had one spelling per machine type: int / signed int / long / signed long / unsigned / unsigned int / long long / signed long long / short / signed short are now retype targets (each spelling is a type text of its own)",
+    "C13_n": "the Python output of the core definitions that ships inside the package was never compared with the core definition file: every core message's shipped type_hash must equal the hash a compilation computes now",
+    "C14_n": "'not writable' and 'fails on write' never met at one subscriber: the logger is reported not writable, the manager waits for it, and it goes away during that wait (new lock-step event `waitdeath`, world + reference)",
+    "C15_m": "float constants were of ordinary magnitude: very small (5e-05, 1.25e-07) and very large (1.2e16) constants written positionally and referenced by other expressions and array lengths",
+    "C16_n": "reserved blocks were small: three files of one closure reserve 60 + 60 + 90 ids (the combined file carries them in one block)",
+    "C18_m": "one manager per process and execution: a second manager after a first one that was stopped with counts it had not reported",
+    "C18_n": "the manager's logging was off in every statistics case: levels INFO and WARNING (its own records are published, hence traffic) over a reduced interval alphabet incl. out-of-table type ids",
+    "C19_m": "first run: the patch no longer applied after the repair of the departure announcements touched the same lines; ported to the repaired tree (patch_head.diff) and caught by the same-round handshake pairs",
+    "C19_n": "no module ever held more than a handful of subscriptions: one module issues 255-300 (thorough: up to 1024) distinct SUBSCRIBE requests, then pause / resume / repeat; every request acknowledged and copied, every subscription in force",
+})
+FIRST_WAVE_MISSED.update({
+    "C01_p": "a fault inside the real Client (after resume(ALL) it filters against the literal ALL id and returns nothing): invisible to C01's raw clients; caught by C02 from the start (seeded/C01_p/check names C02)",
+    "C02_p": "probe messages were broadcasts only: every type is now also published ADDRESSED to the client's own module id (the destination filter narrows, it never replaces the subscription); C01 caught it from the start",
+    "C04_o": "no struct consisted of ONE scalar: NSC {char}, NSB {byte} and message NMC {char} joined the field-type alphabet (arrays of them are arrays of structs in every language)",
+    "C04_p": "no field carried a name the generated classes use themselves: programs with a field called type_id / type_name / type_hash / type_source / type_def / type_size / hexdump are refused or, when accepted, compared like any other",
+    "C05_o": "every published frame was of the user type: K's control burst now carries frames whose type id the core definitions know, with payload lengths other than the manager's own definition (another build's layout)",
+    "C05_p": "every request named a real type: K's burst also sends SUBSCRIBE / RESUME / PAUSE / UNSUBSCRIBE for ids no message can have (negative, INT_MIN, beyond the table)",
+    "C07_o": "the leaver was always writable in the round that found it gone: every single-leaver scenario (except the byte-offset sweeps) also runs with the leaver itself not writable",
+    "C07_p": "the pool of dynamic ids was never full when somebody left: all 100 ids held, then the first / a middle / the last but one / the last admitted holder leaves (DISCONNECT, FIN, RST) and the next request must be served",
+    "C08_p": "socket timeouts were not modelled (settimeout was a no-op) and no send option was ever used before reading: NET models timeouts (non-blocking underneath: MSG_WAITALL returns what has arrived; checked against the kernel), and the split-frame cases also run after sends with a timeout / a destination",
+    "C09_p": "every assigned sequence was a fresh object: the same list object is assigned while valid, changed by its owner, and assigned again (same message, another message, slice)",
+    "C10_o": "no definition had fields called header and data: VHD {header, data} (scalars), VHD2 (structs) and a control with a third field",
+    "C10_p": "remaining_bytes and is_dynamic were zero in every header profile: non-zero in the standard profiles, INT_MIN / -1 in the edge profiles",
+    "C11_o": "no imported file carried compiler options: the command-line family now has imported files saying AUTO_PAD true / false and VALIDATE_ALIGNMENT false against what the root file or the command line says",
+    "C11_p": "structs were only used under their own names: structs whose size is not their alignment (12/4, 6/2, 3/1, 20/4, 24/8) reached through an alias and an alias of the alias, after / before a scalar, as arrays, auto padding on and off",
+    "C12_o": "aliases always named native types: an alias whose target is another alias is a kind of its own in the name-collision pairs",
+    "C12_p": "no project listed the core files itself while the automatic core import was on: graph 'coreimport' (root, an imported file and a sub-directory file each import one of core_defs / data_logger / quick_logger by path)",
+    "C13_o": "all names were ASCII: renames that differ only in letters outside ASCII (definition names and field names) are edits like any other",
+    "C13_p": "only instances of the generated classes were sent: application classes derived from generated ones (helper methods only) go out with the definition's hash too",
+    "C15_o": "file names were unique within a closure: arm/defs.yaml and hand/defs.yaml next to a project file called data_logger.yaml",
+    "C17_p": "in second recordings every data set received a message before the first flush: scripts early-restart-flush / -subdiv in the two-set configurations (one set idle at the first flush of the second recording)",
+    "C19_p": "no request ever followed a dropped delivery: a module that could not take a message once (reported, 1-3 times, with or without traffic in between) then issues every kind of request",
+})
+NEUTRALIZED = {"C07_l": "the change made send_client_close() return early when called from inside another CLIENT_CLOSED delivery; the repair of the recursion defect (ac6efbb) announces departures one after the other, so the nested call no longer exists and the early return is never taken (the demonstration passes on the repaired tree)",
+               "C17_b": "the change re-ordered the two Event operations of the hand-off; the second data-logger repair made the pair atomic under a lock, so the re-ordering no longer breaks the property (the demonstration passes on the repaired tree)"}
 rows = []
 titles = {}
-for d in sorted(glob.glob(os.path.join(HERE, "seeded", "*_[abcdefghijkl]"))):
+for d in sorted(glob.glob(os.path.join(HERE, "seeded", "*_[abcdefghijklmnop]"))):
     sid = os.path.basename(d)
     ev = json.load(open(os.path.join(d, "eval.json"))) if os.path.exists(os.path.join(d, "eval.json")) else {}
     notes = open(os.path.join(d, "notes.md")).read() if os.path.exists(os.path.join(d, "notes.md")) else ""
@@ -162,6 +207,19 @@ for d in sorted(glob.glob(os.path.join(HERE, "seeded", "*_[abcdefghijkl]"))):
     title = re.sub(r"^C\d\d seed [ab]\s*[-:]\s*", "", title)[:110]
     titles[sid] = title
     rows.append((sid, prop, "n/a (neutralized)" if sid in NEUTRALIZED else "yes" if all(detected.values()) and detected else "NO", "first run missed - " + FIRST_WAVE_MISSED[sid] if sid in FIRST_WAVE_MISSED else "caught by the check as first built"))
-print("| seed | the change | caught now | history |\n|---|---|---|---|")
-for sid, prop, det, hist in rows:
-    print(f"| {sid} | {titles[sid]} | {det} | {hist} |")
+import sys
+
+lines = ["| seed | the change | caught now | history |", "|---|---|---|---|"] + [f"| {sid} | {titles[sid]} | {det} | {hist} |" for sid, prop, det, hist in rows]
+if "--design" in sys.argv:
+    # replace the table of DESIGN.md section 10.6 in place
+    dp = os.path.join(HERE, "DESIGN.md")
+    old = open(dp).read().split("\n")
+    a = old.index("| seed | the change | caught now | history |")
+    b = a
+    while b < len(old) and old[b].startswith("|"):
+        b += 1
+    open(dp, "w").write("\n".join(old[:a] + lines + old[b:]))
+    print(f"DESIGN.md: table rows {b - a - 2} -> {len(lines) - 2}")
+    print("caught:", sum(1 for r in rows if r[2] == "yes"), "not caught:", [r[0] for r in rows if r[2] == "NO"], "neutralized:", [r[0] for r in rows if r[2].startswith("n/a")])
+else:
+    print("\n".join(lines))
